@@ -1,8 +1,288 @@
-(* Properties/C36.v -- placeholder while the tie is being validated *)
-From Coq Require Import NArith List Bool.
-From BV Require Import Lib.Bytes Model.GitIds.
+(* Properties/C36.v -- Git identifier mappings round-trip.
+   Statements only; the model is Model/GitIds.v, proofs are in Theory/GitIds{Codec,Refs,Url}.v.
+   bytes = list N (wf_bytes: every element < 256); a Python str = list of code points. *)
+From Coq Require Import NArith List Bool String.
+From BV Require Import Lib.Bytes Model.GitIds Theory.GitIdsCodec Theory.GitIdsRefs Theory.GitIdsUrl.
 Import ListNotations.
+Open Scope N_scope.
 
-Theorem C36_placeholder : unescape_file_id (escape_file_id [95%N]) = Some [95%N].
-Proof. reflexivity. Qed.
-Print Assumptions C36_placeholder.
+(* ---- file-id escaping: every byte string ---- *)
+Theorem C36_file_id_escape : forall b, unescape_file_id (escape_file_id b) = Some b.
+Proof. exact unescape_escape. Qed.
+Print Assumptions C36_file_id_escape.
+
+Example C36_file_id_escape_ex :
+  escape_file_id (asc "a_b c") = asc "a__b_sc" /\ unescape_file_id (asc "a__b_sc") = Some (asc "a_b c").
+Proof. split; reflexivity. Qed.
+
+(* ---- git paths (bytes, possibly not UTF-8) <-> str, surrogateescape ---- *)
+Theorem C36_git_path : forall b, wf_bytes b = true ->
+  exists s, decode_git_path b = Some s /\ encode_git_path s = Some b.
+Proof. exact git_path_roundtrip. Qed.
+Print Assumptions C36_git_path.
+
+Example C36_git_path_ex :
+  decode_git_path [97; 255; 195; 169] = Some [97; 56575; 233] /\
+  encode_git_path [97; 56575; 233] = Some [97; 255; 195; 169].
+Proof. split; reflexivity. Qed.
+
+(* a str that is not a decoded path (two escapes spelling valid UTF-8) does not survive *)
+Theorem C36_git_path_str_refuted :
+  exists s b, encode_git_path s = Some b /\ decode_git_path b <> Some s.
+Proof. exact git_path_str_roundtrip_refuted. Qed.
+Print Assumptions C36_git_path_str_refuted.
+
+Theorem C36_git_path_str_guarded : forall b s,
+  wf_bytes b = true -> decode_git_path b = Some s ->
+  exists b', encode_git_path s = Some b' /\ decode_git_path b' = Some s.
+Proof. exact git_path_str_roundtrip_guarded. Qed.
+Print Assumptions C36_git_path_str_guarded.
+
+(* strict UTF-8 both ways (used for names) *)
+Theorem C36_utf8_strict : forall s b,
+  utf8_encode false s = Some b -> utf8_decode false b = Some s.
+Proof. exact utf8_encode_decode_strict. Qed.
+Print Assumptions C36_utf8_strict.
+
+(* ---- paths <-> file ids: every byte path, incl. non-UTF-8 and the root ---- *)
+Theorem C36_file_id_path : forall p, wf_bytes p = true ->
+  exists s, parse_file_id (generate_file_id_bytes p) = Ok s /\
+            decode_git_path p = Some s /\ encode_git_path s = Some p.
+Proof. exact parse_generate_file_id. Qed.
+Print Assumptions C36_file_id_path.
+
+Theorem C36_file_id_path_str : forall b s,
+  wf_bytes b = true -> decode_git_path b = Some s ->
+  exists f, generate_file_id_str s = Some f /\ parse_file_id f = Ok s.
+Proof. exact parse_generate_file_id_str. Qed.
+Print Assumptions C36_file_id_path_str.
+
+Theorem C36_file_id_path_str_refuted :
+  exists s f, generate_file_id_str s = Some f /\ parse_file_id f <> Ok s.
+Proof. exact parse_generate_file_id_str_refuted. Qed.
+Print Assumptions C36_file_id_path_str_refuted.
+
+Theorem C36_file_id_injective : forall p q,
+  generate_file_id_bytes p = generate_file_id_bytes q -> p = q.
+Proof. exact generate_file_id_injective. Qed.
+Print Assumptions C36_file_id_injective.
+
+Example C36_file_id_path_ex :
+  generate_file_id_bytes (asc "a b/" ++ [255]) = asc "git:a_sb/" ++ [255] /\
+  parse_file_id (asc "git:a_sb/" ++ [255]) = Ok (asc "a b/" ++ [56575]) /\
+  parse_file_id (generate_file_id_bytes []) = Ok [].
+Proof. repeat split; reflexivity. Qed.
+
+(* ---- git SHA <-> revision id ---- *)
+(* through the mapping registry: EVERY git id, both registered mappings *)
+Theorem C36_revid : forall prefix sha, registered prefix ->
+  registry_bzr_to_foreign (revision_id_foreign_to_bzr prefix sha)
+  = Ok (sha, if bytes_eqb sha ZERO_SHA then None else Some prefix).
+Proof. exact revid_registry_roundtrip. Qed.
+Print Assumptions C36_revid.
+
+(* on the mapping class itself: every id but the null id *)
+Theorem C36_revid_class_guarded : forall prefix sha,
+  bytes_eqb sha ZERO_SHA = false ->
+  revision_id_bzr_to_foreign prefix (revision_id_foreign_to_bzr prefix sha) = Some sha.
+Proof. exact revid_class_roundtrip_guarded. Qed.
+Print Assumptions C36_revid_class_guarded.
+
+Theorem C36_revid_class_refuted :
+  revision_id_bzr_to_foreign PREFIX_V1 (revision_id_foreign_to_bzr PREFIX_V1 ZERO_SHA) = None.
+Proof. exact revid_class_roundtrip_refuted. Qed.
+Print Assumptions C36_revid_class_refuted.
+
+Theorem C36_revid_back_guarded : forall prefix r sha,
+  revision_id_bzr_to_foreign prefix r = Some sha -> bytes_eqb sha ZERO_SHA = false ->
+  revision_id_foreign_to_bzr prefix sha = r.
+Proof. exact revid_class_back_guarded. Qed.
+Print Assumptions C36_revid_back_guarded.
+
+Theorem C36_revid_back_refuted :
+  exists r sha, revision_id_bzr_to_foreign PREFIX_V1 r = Some sha /\
+                revision_id_foreign_to_bzr PREFIX_V1 sha <> r.
+Proof. exact revid_class_back_refuted. Qed.
+Print Assumptions C36_revid_back_refuted.
+
+Example C36_revid_ex :
+  registry_bzr_to_foreign (revision_id_foreign_to_bzr PREFIX_V1 (repeat 97 40))
+  = Ok (repeat 97 40, Some PREFIX_V1) /\
+  registry_bzr_to_foreign (revision_id_foreign_to_bzr PREFIX_V1 ZERO_SHA) = Ok (ZERO_SHA, None).
+Proof. split; reflexivity. Qed.
+
+(* ---- branch / tag names <-> refs ---- *)
+(* name -> ref -> name: exactly when the name does not start with "refs/"
+   ("" <-> HEAD included) *)
+Theorem C36_refs_branch_guarded : forall name r,
+  prefixb REFS_SLASH name = false ->
+  branch_name_to_ref name = Some r -> ref_to_branch_name r = Ok name.
+Proof. exact branch_name_roundtrip_guarded. Qed.
+Print Assumptions C36_refs_branch_guarded.
+
+Theorem C36_refs_branch_refuted :
+  exists name r, branch_name_to_ref name = Some r /\ ref_to_branch_name r <> Ok name.
+Proof. exact branch_name_roundtrip_refuted. Qed.
+Print Assumptions C36_refs_branch_refuted.
+
+Theorem C36_refs_tag : forall name r,
+  tag_name_to_ref name = Some r -> ref_to_tag_name r = Ok name.
+Proof. exact tag_name_roundtrip. Qed.
+Print Assumptions C36_refs_tag.
+
+(* ref -> name -> ref *)
+Theorem C36_refs_branch_back_guarded : forall ref name,
+  wf_bytes ref = true -> ref_to_branch_name ref = Ok name ->
+  prefixb REFS_SLASH name = false -> (name = [] -> ref = HEAD) ->
+  branch_name_to_ref name = Some ref.
+Proof. exact ref_branch_roundtrip_guarded. Qed.
+Print Assumptions C36_refs_branch_back_guarded.
+
+Theorem C36_refs_branch_back_refuted :
+  exists ref name, ref_to_branch_name ref = Ok name /\ branch_name_to_ref name <> Some ref.
+Proof. exact ref_branch_roundtrip_refuted. Qed.
+Print Assumptions C36_refs_branch_back_refuted.
+
+Theorem C36_refs_tag_back : forall ref name,
+  wf_bytes ref = true -> ref_to_tag_name ref = Ok name -> tag_name_to_ref name = Some ref.
+Proof. exact ref_tag_roundtrip. Qed.
+Print Assumptions C36_refs_tag_back.
+
+Example C36_refs_ex :
+  branch_name_to_ref [233] = Some (LOCAL_BRANCH_PREFIX ++ [195; 169]) /\
+  ref_to_branch_name (LOCAL_BRANCH_PREFIX ++ [195; 169]) = Ok [233] /\
+  branch_name_to_ref [] = Some HEAD /\ ref_to_branch_name HEAD = Ok [].
+Proof. repeat split; reflexivity. Qed.
+
+(* ---- percent-encoding of parameter values ---- *)
+Theorem C36_percent : forall bs, wf_bytes bs = true ->
+  percent_decode (quote_from_bytes [] bs) = bs.
+Proof. exact percent_decode_quote. Qed.
+Print Assumptions C36_percent.
+
+(* ---- git URL + branch/ref -> breezy URL -> back ----
+   L = the location after git_url_to_bzr_url's scheme normalisation (url_head);
+   guard [plain]: no comma in L's last path segment.
+   The (branch, ref) that comes back is the pair git_url_to_bzr_url itself normalised
+   ([norm_br]: HEAD and empty values mean "none", a refs/heads/X ref is the branch X). *)
+Theorem C36_url_roundtrip : forall ssh_reser location L branch ref,
+  url_head ssh_reser location = HCont L ->
+  valid_str L -> plain L = true -> valid_opt branch -> wf_opt ref ->
+  (branch = None \/ ref = None) ->
+  exists u, git_url_to_bzr_url ssh_reser location branch ref = Ok u /\
+            bzr_url_to_git_url u
+            = Ok (L, ne_opt (snd (norm_br branch ref)), ne_opt (fst (norm_br branch ref))).
+Proof. exact url_roundtrip. Qed.
+Print Assumptions C36_url_roundtrip.
+
+(* the three readable instances: a branch name, a ref that is not a branch, a branch ref *)
+Theorem C36_url_roundtrip_branch : forall ssh_reser location L b,
+  url_head ssh_reser location = HCont L -> valid_str L -> plain L = true ->
+  valid_str b -> b <> [] ->
+  exists u, git_url_to_bzr_url ssh_reser location (Some b) None = Ok u /\
+            bzr_url_to_git_url u = Ok (L, Some b, None).
+Proof.
+  intros ssh_reser location L b HH HV HL Hb Hne.
+  destruct (url_roundtrip ssh_reser location L (Some b) None HH HV HL Hb I (or_intror eq_refl))
+    as [u [H1 H2]].
+  exists u. split; [exact H1|]. rewrite H2, norm_br_branch.
+  destruct b; [contradiction|reflexivity].
+Qed.
+Print Assumptions C36_url_roundtrip_branch.
+
+Theorem C36_url_roundtrip_ref : forall ssh_reser location L r e,
+  url_head ssh_reser location = HCont L -> valid_str L -> plain L = true ->
+  wf_bytes r = true -> r <> [] -> bytes_eqb r HEAD = false -> ref_to_branch_name r = Err e ->
+  exists u, git_url_to_bzr_url ssh_reser location None (Some r) = Ok u /\
+            bzr_url_to_git_url u = Ok (L, None, Some r).
+Proof.
+  intros ssh_reser location L r e HH HV HL Hr Hne H1 H2.
+  destruct (url_roundtrip ssh_reser location L None (Some r) HH HV HL I Hr (or_introl eq_refl))
+    as [u [H3 H4]].
+  exists u. split; [exact H3|]. rewrite H4, (norm_br_ref_other r e H1 H2).
+  destruct r; [contradiction|reflexivity].
+Qed.
+Print Assumptions C36_url_roundtrip_ref.
+
+Theorem C36_url_roundtrip_branch_ref : forall ssh_reser location L name e,
+  url_head ssh_reser location = HCont L -> valid_str L -> plain L = true ->
+  name <> [] -> utf8_encode false name = Some e ->
+  exists u, git_url_to_bzr_url ssh_reser location None (Some (LOCAL_BRANCH_PREFIX ++ e)) = Ok u /\
+            bzr_url_to_git_url u = Ok (L, Some name, None).
+Proof.
+  intros ssh_reser location L name e HH HV HL Hne He.
+  assert (Hwf : wf_opt (Some (LOCAL_BRANCH_PREFIX ++ e))).
+  { cbn [wf_opt]. rewrite wf_bytes_app, (utf8_encode_wf _ _ _ He). reflexivity. }
+  destruct (url_roundtrip ssh_reser location L None _ HH HV HL I Hwf (or_introl eq_refl))
+    as [u [H3 H4]].
+  exists u. split; [exact H3|]. rewrite H4, (norm_br_ref_heads name e Hne He).
+  destruct name; [contradiction|reflexivity].
+Qed.
+Print Assumptions C36_url_roundtrip_branch_ref.
+
+(* locations of a known git scheme other than ssh are their own normal form *)
+Theorem C36_url_head_known : forall ssh_reser location,
+  existsb (bytes_eqb (url_scheme location)) KNOWN_GIT_SCHEMES = true ->
+  bytes_eqb (url_scheme location) (asc "ssh") = false ->
+  url_head ssh_reser location = HCont location.
+Proof. exact url_head_known. Qed.
+Print Assumptions C36_url_head_known.
+
+(* outside the guard: a comma in the last path segment *)
+Theorem C36_url_roundtrip_comma_refuted :
+  exists location branch u,
+    git_url_to_bzr_url (fun l => l) location (Some branch) None = Ok u /\
+    url_head (fun l => l) location = HCont location /\
+    bzr_url_to_git_url u <> Ok (location, Some branch, None).
+Proof. exact url_roundtrip_comma_refuted. Qed.
+Print Assumptions C36_url_roundtrip_comma_refuted.
+
+Theorem C36_url_roundtrip_comma_refuted_error :
+  exists location,
+    git_url_to_bzr_url (fun l => l) location None None = Ok location /\
+    bzr_url_to_git_url location = Err "ValueError".
+Proof. exact url_roundtrip_comma_refuted_error. Qed.
+Print Assumptions C36_url_roundtrip_comma_refuted_error.
+
+Example C36_url_ex :
+  git_url_to_bzr_url (fun l => l) (asc "git://h/r") (Some (asc "a b")) None
+    = Ok (asc "git://h/r,branch=a%20b") /\
+  bzr_url_to_git_url (asc "git://h/r,branch=a%20b") = Ok (asc "git://h/r", Some (asc "a b"), None) /\
+  git_url_to_bzr_url (fun l => l) (asc "u@h:r") None (Some (asc "refs/tags/v1"))
+    = Ok (asc "git+ssh://u@h/r,ref=refs%2Ftags%2Fv1") /\
+  bzr_url_to_git_url (asc "git+ssh://u@h/r,ref=refs%2Ftags%2Fv1")
+    = Ok (asc "git+ssh://u@h/r", None, Some (asc "refs/tags/v1")) /\
+  plain (asc "git://h/r") = true /\ plain (asc "git://h/r,a=b") = false.
+Proof. repeat split; vm_compute; reflexivity. Qed.
+
+(* ---- parent location ---- *)
+(* branch named like its remote: what is read back is git_url_to_bzr_url of the stored
+   URL and the stored merge ref ... *)
+Theorem C36_parent_location_guarded : forall ssh_reser rel name location cfg L branch ref v,
+  name <> [] ->
+  bzr_url_to_git_url location = Ok (L, branch, ref) ->
+  eff_ref branch ref = Some v -> wf_bytes v = true ->
+  rel L = L -> url_head ssh_reser L = HCont L -> valid_str L -> plain L = true ->
+  exists cfg' u, set_parent rel name location cfg = Ok cfg' /\
+                 get_parent_location ssh_reser name cfg' = Ok (Some u) /\
+                 bzr_url_to_git_url u
+                 = Ok (L, ne_opt (snd (norm_br None (Some v))), ne_opt (fst (norm_br None (Some v)))).
+Proof. exact parent_location_equivalent. Qed.
+Print Assumptions C36_parent_location_guarded.
+
+(* ... but _get_related_merge_branch reads branch.<remote>.merge while set_parent writes
+   branch.<name>.merge: for any other branch name the parent's branch is lost *)
+Theorem C36_parent_location_refuted :
+  exists name remote location cfg',
+    set_parent (fun l => l) name location {| cfg_url := None; cfg_merge := [] |} = Ok cfg' /\
+    bzr_url_to_git_url location = Ok (asc "git://h/r", Some (asc "b"), None) /\
+    get_parent_location (fun l => l) remote cfg' = Ok (Some (asc "git://h/r")).
+Proof. exact parent_roundtrip_refuted. Qed.
+Print Assumptions C36_parent_location_refuted.
+
+Example C36_parent_ex :
+  exists cfg',
+    set_parent (fun l => l) (asc "origin") (asc "git://h/r,branch=b")
+               {| cfg_url := None; cfg_merge := [] |} = Ok cfg' /\
+    get_parent_location (fun l => l) (asc "origin") cfg' = Ok (Some (asc "git://h/r,branch=b")).
+Proof. eexists. split; vm_compute; reflexivity. Qed.
